@@ -35,7 +35,7 @@ def temperature_spec(draw, T0, total_time, allow_profile=True, max_span=120.0):
 
 
 @st.composite
-def toy_phase(draw, name, T0, x0, vmA, allow_shapes=True, sites=None, undersat=True, allow_elastic=False, allow_kbeta=False):
+def toy_phase(draw, name, T0, x0, vmA, allow_shapes=True, sites=None, undersat=True, allow_elastic=False, allow_kbeta=False, strain_odds=3):
     """Phase parameters constructed so that the nucleation barrier G*/kT lies in a useful range."""
     xb = draw(st.floats(max(0.2, min(0.7, 6 * x0)), 0.75))
     if undersat and draw(st.integers(0, 5)) == 5:
@@ -51,7 +51,7 @@ def toy_phase(draw, name, T0, x0, vmA, allow_shapes=True, sites=None, undersat=T
     dGm = R_GAS * T0 * (xb * math.log(S) + (1 - xb) * math.log((1 - x0) / (1 - xeq)))
     dGv = dGm / vmB
     p = {"name": name, "xb": xb, "dH": dH, "dS": dS, "site": site}
-    if dGv > 0 and draw(st.integers(0, 3)) == 3:
+    if dGv > 0 and draw(st.integers(0, strain_odds)) == strain_odds:
         p["strain"] = dGv * draw(st.floats(0.05, 0.5))
         dGv -= p["strain"]
     if dGv > 0:
@@ -132,12 +132,12 @@ def _times(draw, dtScale, total_log10=None):
 
 
 @st.composite
-def toy_binary_scenario(draw, cap=400, max_phases=3, allow_profile=True, sites=None, allow_shapes=True, undersat=True, total_log10=None, dtScales=None, allow_elastic=False, allow_kbeta=False):
+def toy_binary_scenario(draw, cap=400, max_phases=3, allow_profile=True, sites=None, allow_shapes=True, undersat=True, total_log10=None, dtScales=None, allow_elastic=False, allow_kbeta=False, strain_odds=3):
     T0 = draw(st.floats(500.0, 900.0))
     nph = min(max_phases, draw(st.sampled_from([1, 1, 1, 2, 2, 3])))
     x0 = 10 ** draw(st.floats(-3.3, -1.3))
     vmA = 10 ** draw(st.floats(-5.3, -4.8))
-    phases = [draw(toy_phase("P%d" % i, T0, x0, vmA, allow_shapes=allow_shapes, sites=sites, undersat=undersat, allow_elastic=allow_elastic, allow_kbeta=allow_kbeta)) for i in range(nph)]
+    phases = [draw(toy_phase("P%d" % i, T0, x0, vmA, allow_shapes=allow_shapes, sites=sites, undersat=undersat, allow_elastic=allow_elastic, allow_kbeta=allow_kbeta, strain_odds=strain_odds)) for i in range(nph)]
     cons = draw(constraints_spec())
     if dtScales:
         cons["dtScale"] = draw(st.sampled_from(dtScales))
@@ -178,7 +178,7 @@ def toy_binary_scenario(draw, cap=400, max_phases=3, allow_profile=True, sites=N
 
 
 @st.composite
-def toy_multi_scenario(draw, cap=300, max_phases=2, allow_profile=True, min_phases=1):
+def toy_multi_scenario(draw, cap=300, max_phases=2, allow_profile=True, min_phases=1, allow_shapes=False, strain_odds=3):
     T0 = draw(st.floats(600.0, 1000.0))
     nph = max(min_phases, min(max_phases, draw(st.sampled_from([1, 1, 2]))))
     x0 = [draw(st.floats(0.005, 0.08)), draw(st.floats(0.005, 0.08))]
@@ -200,7 +200,11 @@ def toy_multi_scenario(draw, cap=300, max_phases=2, allow_profile=True, min_phas
         vmB = vmA / draw(st.floats(0.5, 2.0))
         dGv = R_GAS * T0 * math.log(S) / vmB
         p = {"name": "P%d" % i, "xb": xb, "dH": dH, "dS": dS, "site": draw(st.sampled_from(["bulk", "dislocations", "grain boundaries"])), "shape": "sphere"}
-        if dGv > 0 and draw(st.integers(0, 3)) == 3:
+        if allow_shapes and p["site"] in ("bulk", "dislocations"):
+            p["shape"] = draw(st.sampled_from(["sphere", "needle", "plate", "cubic"]))
+            if p["shape"] != "sphere":
+                p["ar"] = draw(st.floats(1.0, 5.0))
+        if dGv > 0 and draw(st.integers(0, strain_odds)) == strain_odds:
             p["strain"] = dGv * draw(st.floats(0.05, 0.5))
             dGv -= p["strain"]
         if dGv > 0:
